@@ -29,9 +29,6 @@ def declare(spec):
                            'Watcher.notify_event (ghost_at)'))
     spec.pred('serialisable', [('msg', Dict(STR, VAL))],
               "forall(STR, lambda k: implies(k in msg, not is_ref(msg[k])))")
-    spec.add(Contract('zmq.utils.jsonapi:dumps', params={'o': Dict(STR, VAL)}, ret=BYTES, trusted=True,
-                      modifies=[], requires=['serialisable(o)'],
-                      note='T-STDLIB json.dumps of a str-keyed dict of JSON scalars/containers: never raises'))
     spec.pred('msg_int', [('msg', Dict(STR, VAL)), ('k', STR)],
               "ite(k in msg and is_int(msg[k]), as_int(msg[k]), -1)", ret=INT)
     spec.add(Contract(
@@ -189,6 +186,7 @@ def declare(spec):
             'implies(result, not process.stopping and process.closed)',
             'forall(INT, lambda i: implies(0 <= i and i < %s, process.klog[i] == old(process.klog)[i]))' % N0,
             'implies(excl, %s)' % spec.consts['$PROT'], 'wf_procs_pid(self)', 'excl == old(excl)',
+            'clock >= old(clock)', spec.consts['$LOGS'],
         ],
         modifies=['process.klog', 'process.naps', 'process.alive_seen', 'process.stopping', 'process.closed', '*'],
         ghost_at={
@@ -206,7 +204,8 @@ def declare(spec):
             "clock >= sig_t(process.klog[%s]) + waited" % N0,
             "wf_procs_pid(self)", "not old(process.stopping)", "process.pid == old(process.pid)",
             "waited <= 0 or waited - real(1) / 10 < as_real(graceful_timeout)",
-            "implies(excl, %s)" % spec.consts['$PROT'], "excl == old(excl)",
+            "implies(excl, %s)" % spec.consts['$PROT'], "excl == old(excl)", "clock >= old(clock)",
+            spec.consts['$LOGS'],
         ], variant="as_real(graceful_timeout) - waited", fingerprint='while:waited < graceful_timeout')},
     ))
 
@@ -235,7 +234,7 @@ def declare(spec):
             "ev_code(last(reaplog)) == K_exit[pid])",
             # no zombie: after reaping it is no longer an unreaped child of ours
             "implies((pid in old(self.processes)) and is_none(status), not (pid in K_child))",
-            RKEEP, EVKEEP, 'kstep()', 'wf_procs_pid(self)',
+            RKEEP, EVKEEP, HKEEP, SIGKEEP, 'kstep()', 'wf_procs_pid(self)', 'clock >= old(clock)',
             "forall(INT, lambda p: implies(p in K_child, p in old(K_child)))",
         ],
         modifies=['self.processes', 'evlog', 'reaplog', 'hooklog', 'clock', 'K_alive', 'K_child', 'siglog',
@@ -247,7 +246,7 @@ def declare(spec):
             "pid in old(self.processes)",
             "forall(INT, lambda k: implies(k != pid, (k in self.processes) == (k in old(self.processes)) and "
             "self.processes[k] == old(self.processes)[k]))",
-            "reaplog == old(reaplog)", EVKEEP, 'kstep()',
+            "reaplog == old(reaplog)", EVKEEP, HKEEP, SIGKEEP, 'kstep()', 'clock >= old(clock)',
             "is_none(status) or (is_int(status) and wstatus_ok(as_int(status)))",
             "implies(is_int(status) and is_none(init(status)), not (pid in K_child) and "
             "wdecode(as_int(status)) == K_exit[pid] and (pid in old(K_child)))",
@@ -274,7 +273,8 @@ def declare(spec):
             "length(reaplog) == length(old(reaplog)) + len(old(self.processes)))",
             "implies(old(self._status) != 'stopped', forall(INT, lambda k: implies(k in old(self.processes), "
             "not (k in K_child))))",
-            RKEEP, EVKEEP, 'kstep()', KCH_SHRINK, 'wf_procs_pid(self)', "self._status == old(self._status)",
+            RKEEP, EVKEEP, HKEEP, SIGKEEP, 'kstep()', KCH_SHRINK, 'wf_procs_pid(self)', "self._status == old(self._status)",
+            'clock >= old(clock)',
         ],
         modifies=['self.processes', 'evlog', 'reaplog', 'hooklog', 'clock', 'K_alive', 'K_child', 'siglog',
                   'Process.closed'],
@@ -288,8 +288,8 @@ def declare(spec):
             "len(self.processes) == len(old(self.processes)) - loop_i",
             "length(reaplog) == length(old(reaplog)) + loop_i",
             "loop_n == len(old(self.processes))",
-            RKEEP, EVKEEP, 'kstep()', KCH_SHRINK, 'wf_procs_pid(self)', "self._status == old(self._status)",
-            "self._status != 'stopped'",
+            RKEEP, EVKEEP, HKEEP, SIGKEEP, 'kstep()', KCH_SHRINK, 'wf_procs_pid(self)', "self._status == old(self._status)",
+            "self._status != 'stopped'", 'clock >= old(clock)',
         ], fingerprint='for:list(self.processes.keys())',
             modifies=['self.processes', 'evlog', 'reaplog', 'hooklog', 'clock', 'K_alive', 'K_child', 'siglog',
                       'Process.closed'])},
@@ -297,6 +297,7 @@ def declare(spec):
 
     # ---- stop (C02) -----------------------------------------------------------------------
     PROT = spec.consts['$PROT']
+    prot = spec.consts['$prot']
     spec.add(Contract(
         'circus.watcher:Watcher.get_active_processes', ret=List(Ref('Process')), trusted=True,
         modifies=['K_alive'],
@@ -315,7 +316,8 @@ def declare(spec):
         requires=['wf_procs_pid(self)', 'is_none(stop_signal) or is_int(stop_signal)',
                   'is_none(graceful_timeout) or is_num(graceful_timeout)', 'self.graceful_timeout >= 0',
                   'implies(is_num(graceful_timeout), as_real(graceful_timeout) >= 0)'],
-        ensures=['implies(excl, %s)' % PROT, 'wf_procs_pid(self)', 'excl == old(excl)'],
+        ensures=['implies(excl, %s)' % PROT, 'wf_procs_pid(self)', 'excl == old(excl)', 'clock >= old(clock)',
+                 spec.consts['$LOGS']],
         modifies=['*']))
     spec.add(Contract('$method.close', params={'self': VAL}, trusted=True, modifies=[],
                       note='A-STREAMS: closing a user stream object returns and does not touch supervisor state'))
@@ -323,8 +325,7 @@ def declare(spec):
                       note='placeholder until C17: no effect on the state the lifecycle contracts talk about'))
     spec.add(Contract(
         'circus.watcher:Watcher._stop', kind='coroutine', rely='held', params={'close_output_streams': BOOL},
-        requires=['excl', 'wf_procs_pid(self)', 'forall(INT, lambda k: implies(k in self.processes, k > 0))',
-                  'self.graceful_timeout >= 0'],
+        requires=['excl', 'wf_w(self)', 'self.graceful_timeout >= 0'],
         ensures=[
             "self._status == 'stopped'",
             "implies(old(self._status) == 'stopped', same_heap())",
@@ -332,9 +333,210 @@ def declare(spec):
             "implies(old(self._status) != 'stopped', len(self.processes) == 0)",
             "implies(old(self._status) != 'stopped', forall(INT, lambda k: implies(k in old(self.processes), "
             "not (k in K_child))))",
-            'wf_procs_pid(self)', 'excl',
+            'wf_procs_pid(self)', 'excl', 'wf_w(self)',
             "forall(Ref('Watcher'), lambda w: implies(w != self, w._status == old(w._status) and "
-            "w.numprocesses == old(w.numprocesses)))",
-            "same_field('Arbiter.watchers', 'Arbiter._watchers_names')",
+            "w.numprocesses == old(w.numprocesses) and w.processes == old(w.processes)))",
+            # nothing but this watcher's table and status changes among the protected state; nothing is spawned
+            prot(exc=('Watcher.processes', 'Watcher._status', 'Watcher.stream_redirector', 'reaplog')),
+            spec.consts['$LOGS'],
+            'clock >= old(clock)',
         ],
         modifies=['*']))
+
+    # ---- spawning (C01, C04, C09, C13 wid invariant, C14 gates) ----------------------------------
+    SPKEEP = spec.consts['$SPKEEP']
+    spec.ghost('spevlog', List(PUBEV))     # one entry per 'spawn' event handed to notify_event
+    spec.pred('is_false', [('v', VAL)], "is_bool(v) and not as_bool(v)")
+    spec.pred('is_true', [('v', VAL)], "is_bool(v) and as_bool(v)")
+    spec.pred('wf_w', [('w', Ref('Watcher'))],
+              "wf_procs_pid(w) and w.numprocesses >= 0 and "
+              "forall(INT, lambda k: implies(k in w.processes, k > 0 and w.processes[k].wid >= 1 and allocated(w.processes[k])))")
+    spec.pred('wids_distinct', [('w', Ref('Watcher'))],
+              "forall(INT, INT, lambda a, b: implies((a in w.processes) and (b in w.processes) and a != b, "
+              "w.processes[a].wid != w.processes[b].wid))")
+    spec.add(Contract('circus.util:replace_gnu_args', params={'data': VAL, 'prefix': VAL, 'options': Dict(STR, VAL)},
+                      ret=STR, trusted=True, modifies=[], requires=['is_str(data)'],
+                      note='placeholder until C13 puts replace_gnu_args under contract: pure, returns a str'))
+    spec.add(Contract('circus.stream.redirector:Redirector.start', trusted=True, modifies=[], ret=INT))
+    spec.add(Contract('circus.stream.redirector:Redirector.add_redirections', params={'process': Ref('Process')},
+                      trusted=True, modifies=[]))
+    # synchronous prefix of kill_process when its future is dropped (spawn_process, after_spawn failure)
+    kp = spec.contracts['circus.watcher:Watcher.kill_process']
+    kp.detached = Contract(
+        'circus.watcher:Watcher.kill_process', params=kp.params, requires=[],
+        ensures=[PROT, 'wf_procs_pid(self)', SIGKEEP, EVKEEP, HKEEP, 'kstep()', 'clock >= old(clock)',
+                 'K_child == old(K_child)', 'spawnlog == old(spawnlog)', 'spevlog == old(spevlog)',
+                 'reaplog == old(reaplog)', 'excl == old(excl)',
+                 "forall(Ref('Process'), lambda q: implies(q != process, q.stopping == old(q.stopping) and "
+                 "q.closed == old(q.closed) and q.klog == old(q.klog)))",
+                 "same_field('Process.pid', 'Process.wid', 'Process.started')"],
+        modifies=['process.klog', 'process.naps', 'process.alive_seen', 'process.stopping', 'process.closed',
+                  'siglog', 'evlog', 'hooklog', 'clock', 'K_alive'])
+    GATE_BS = "ite('before_spawn' in old(self.hooks), ev_pid(hooklog[length(old(hooklog))]) == 1, True)"
+    NEWPID = "sig_pid(last(spawnlog))"
+    spec.add(Contract(
+        'circus.watcher:Watcher.spawn_process', params={'recovery_wid': VAL}, ret=VAL,
+        requires=['wf_w(self)', 'is_none(recovery_wid)', 'is_str(self.cmd)'],
+        ensures=[
+            # a stopped watcher never spawns (C02)
+            "implies(old(self._status) == 'stopped', is_true(result) and same_heap())",
+            'length(spawnlog) <= length(old(spawnlog)) + 1', SPKEEP,
+            "implies(length(spawnlog) == length(old(spawnlog)) + 1, sig_mode(last(spawnlog)) == ref_id(self) and "
+            "sig_t(last(spawnlog)) >= old(clock))",
+            # success: exactly one new child, registered under its pid, with a fresh positive wid
+            "implies(is_real(result), length(spawnlog) == length(old(spawnlog)) + 1 and (%s in self.processes) and "
+            "not (%s in old(self.processes)) and self.processes[%s].pid == %s and "
+            "self.processes[%s].wid == sig_num(last(spawnlog)) and self.processes[%s].started == as_real(result) "
+            "and sig_mode(last(spawnlog)) == ref_id(self))" % ((NEWPID,) * 6),
+            "implies(is_real(result), forall(INT, lambda k: implies(k != %s, (k in self.processes) == "
+            "(k in old(self.processes)) and self.processes[k] == old(self.processes)[k])))" % NEWPID,
+            "implies(is_real(result), len(self.processes) == len(old(self.processes)) + 1)",
+            # the new worker id is not used by any other listed worker (C13: ids unique among live workers)
+            "implies(is_real(result), forall(INT, lambda k: implies(k in old(self.processes), "
+            "old(self.processes)[k].wid != self.processes[%s].wid)) and self.processes[%s].wid >= 1)" % (NEWPID, NEWPID),
+            "implies(is_real(result), sig_t(last(spawnlog)) == as_real(result) and as_real(result) <= clock and "
+            "as_real(result) >= old(clock))",
+            "clock >= old(clock)",
+            "implies(is_real(result), wf_w(self))",
+            # anything else: the table is as before
+            "implies(not is_real(result), forall(INT, lambda k: (k in self.processes) == (k in old(self.processes)) "
+            "and implies(k in self.processes, self.processes[k] == old(self.processes)[k])) and "
+            "len(self.processes) == len(old(self.processes)))",
+            "is_real(result) or is_false(result) or (is_true(result) and old(self._status) == 'stopped')",
+            # before_spawn gate (C14): a falsy hook means no process is created
+            "implies(old(self._status) != 'stopped' and not %s, is_false(result) and spawnlog == old(spawnlog))" % GATE_BS,
+            # exactly one spawn event, for the new pid, iff a start time is returned (C09)
+            "implies(is_real(result), length(spevlog) == length(old(spevlog)) + 1 and ev_pid(last(spevlog)) == %s)" % NEWPID,
+            "implies(not is_real(result), spevlog == old(spevlog))",
+            # accounting (C04): a child created by this call is listed when the call returns
+            ('accounted', "forall(INT, lambda p: implies((p in K_child) and not (p in old(K_child)), p in self.processes))"),
+            "forall(INT, lambda p: implies(p in old(K_child), p in K_child))",
+            prot(exc=('Watcher.processes', 'spawnlog', 'spevlog', 'K_child')), 'excl == old(excl)',
+            "forall(Ref('Watcher'), lambda w: implies(w != self, w.processes == old(w.processes)))",
+            spec.consts['$LOGS'],
+            # the same accounting clause outside the known finding F-21 (after_spawn hook falsy / raising)
+            "implies(forall(INT, lambda i: implies(length(old(hooklog)) <= i and i < length(hooklog), "
+            "not (ev_topic(hooklog[i]) == 'after_spawn' and ev_pid(hooklog[i]) == 0))), "
+            "forall(INT, lambda p: implies((p in K_child) and not (p in old(K_child)), p in self.processes)))",
+        ],
+        raises={'RuntimeError': ["forall(INT, lambda y: implies(1 <= y and y <= 2 * self.numprocesses, "
+                                 "exists(INT, lambda k: (k in self.processes) and self.processes[k].wid == y)))",
+                                 'spawnlog == old(spawnlog)', "same_field('Watcher.processes')"]},
+        modifies=['self.processes', 'spawnlog', 'spevlog', 'evlog', 'hooklog', 'clock', 'K_alive', 'K_child',
+                  'siglog', 'new:Process', 'Process.klog', 'Process.naps', 'Process.alive_seen',
+                  'Process.stopping', 'Process.closed'],
+        ghost_at={'notify_event': ["spevlog = ite(args[0] == 'spawn', spevlog + [pubev(ref_id(self), 'spawn', "
+                                   "msg_int(args[1], 'process_pid'), 0)], spevlog)"]},
+        loops={0: Loop(invariant=[
+            'spawnlog == old(spawnlog)', "same_field('Watcher.processes')", 'nb_tries >= 0',
+            'spevlog == old(spevlog)', 'K_child == old(K_child)', 'wf_w(self)', 'kstep()',
+            "self._status != 'stopped'", 'is_none(recovery_wid)', 'clock >= old(clock)',
+            "implies('before_spawn' in old(self.hooks), length(hooklog) > length(old(hooklog)) and "
+            "ev_pid(hooklog[length(old(hooklog))]) == 1 and forall(INT, lambda i: implies(0 <= i and "
+            "i < length(old(hooklog)), hooklog[i] == old(hooklog)[i])))",
+            prot(exc=('Watcher.processes', 'spawnlog', 'spevlog', 'K_child')), 'excl == old(excl)', spec.consts['$LOGS'],
+            "forall(Ref('Process'), lambda q: implies(at('loop0_pre', allocated(q)), q.pid == at('loop0_pre', q.pid) and "
+            "q.wid == at('loop0_pre', q.wid) and q.started == at('loop0_pre', q.started) and "
+            "q.stopping == at('loop0_pre', q.stopping) and q.closed == at('loop0_pre', q.closed) and "
+            "q.klog == at('loop0_pre', q.klog) and q.name == at('loop0_pre', q.name) and "
+            "q.naps == at('loop0_pre', q.naps) and q.alive_seen == at('loop0_pre', q.alive_seen)))",
+        ], fingerprint='while:nb_tries < self.max_retry or self.max_retry == -1',
+            # only failed creation attempts come back to the loop head
+            modifies=['K_alive', 'clock', 'new:Process', 'Process.*'])},
+    ))
+
+    # ---- spawn_processes / _start (C01 count, C14 start gates, C19 pacing) -----------------------
+    spec.add(Contract('circus.watcher:Watcher.pending_socket_event', kind='property', ret=BOOL, modifies=[],
+                      requires=['not isnull(self.arbiter)'],
+                      ensures=['result == (self.on_demand and not self.arbiter.socket_event)'],
+                      inline='self.on_demand and not self.arbiter.socket_event'))
+    MINE = ("forall(INT, lambda i: implies(length(old(spawnlog)) <= i and i < length(spawnlog), "
+            "sig_mode(spawnlog[i]) == ref_id(self)))")
+    PACED = ("forall(INT, lambda i: implies(length(old(spawnlog)) <= i and i + 1 < length(spawnlog), "
+             "sig_t(spawnlog[i + 1]) >= sig_t(spawnlog[i]) + old(self.warmup_delay)))")
+    LIFE_REQ = ['excl', 'wf_w(self)', 'not self.on_demand', 'not isnull(self.arbiter)',
+                'is_list(self._found_wids) and length(vlist_of(self._found_wids)) == 0', 'is_str(self.cmd)',
+                'self.warmup_delay >= 0', 'self.graceful_timeout >= 0']
+    spec.add(Contract(
+        'circus.watcher:Watcher.spawn_processes', kind='coroutine', rely='held',
+        requires=LIFE_REQ + ["self._status != 'stopped'"],
+        ensures=[
+            SPKEEP, MINE, PACED, 'excl',
+            # a stopped watcher spawns nothing
+            "implies(old(self._status) == 'stopped', spawnlog == old(spawnlog) and same_field('Watcher.processes') "
+            "and self._status == 'stopped')",
+            # otherwise either the deficit is filled exactly, or a spawn failed and the watcher was stopped
+            "implies(old(self._status) != 'stopped' and self._status != 'stopped', "
+            "len(self.processes) == ite(len(old(self.processes)) < old(self.numprocesses), old(self.numprocesses), "
+            "len(old(self.processes))))",
+            "implies(old(self._status) != 'stopped' and self._status != 'stopped', "
+            "length(spawnlog) - length(old(spawnlog)) == len(self.processes) - len(old(self.processes)))",
+            "implies(self._status == 'stopped' and old(self._status) != 'stopped', len(self.processes) == 0)",
+            "self._status == old(self._status) or self._status == 'stopped'",
+            "implies(self._status != 'stopped', forall(INT, lambda k: implies(k in old(self.processes), "
+            "(k in self.processes) and self.processes[k] == old(self.processes)[k])))",
+            'wf_w(self)', 'self.numprocesses == old(self.numprocesses)',
+            prot(exc=('Watcher.processes', 'Watcher._status', 'Watcher.stream_redirector', 'Watcher._found_wids',
+                      'spawnlog', 'spevlog', 'reaplog', 'K_child')),
+            "implies(self._status != 'stopped', reaplog == old(reaplog))", spec.consts['$LOGS'],
+        ],
+        raises={'RuntimeError': []},
+        modifies=['*'],
+        loops={
+            0: Loop(invariant=['loop_n == 0'], fingerprint='for:self._found_wids', modifies=[]),
+            1: Loop(invariant=[
+                SPKEEP, MINE, PACED, 'excl', 'wf_w(self)',
+                "self._status == old(self._status)", "self._status != 'stopped' or loop_i == 0 or True",
+                "implies(old(self._status) != 'stopped', len(self.processes) == len(old(self.processes)) + loop_i and "
+                "length(spawnlog) == length(old(spawnlog)) + loop_i)",
+                "implies(old(self._status) == 'stopped', spawnlog == old(spawnlog) and same_field('Watcher.processes'))",
+                "loop_n == ite(len(old(self.processes)) < old(self.numprocesses), "
+                "old(self.numprocesses) - len(old(self.processes)), 0)",
+                "forall(INT, lambda k: implies(k in old(self.processes), (k in self.processes) and "
+                "self.processes[k] == old(self.processes)[k]))",
+                # pacing: the next spawn cannot happen before the last one plus warmup_delay
+                "implies(length(spawnlog) > length(old(spawnlog)), clock >= sig_t(last(spawnlog)) + old(self.warmup_delay))",
+                "self.numprocesses == old(self.numprocesses)", "self.warmup_delay == old(self.warmup_delay)",
+                "not self.on_demand", "not isnull(self.arbiter)", "is_str(self.cmd)", "self.graceful_timeout >= 0",
+                'clock >= old(clock)', 'reaplog == old(reaplog)', spec.consts['$LOGS'],
+                prot(exc=('Watcher.processes', 'Watcher._found_wids', 'spawnlog', 'spevlog', 'reaplog', 'K_child')),
+            ], fingerprint='for:range(self.numprocesses - len(self.processes))'),
+        },
+    ))
+
+    # ---- _start (C14 start gates, C09 start event, C19) ---------------------------------------
+    spec.add(Contract('$method.open', params={'self': VAL}, trusted=True, modifies=[],
+                      note='A-STREAMS: (re)opening a user stream object returns and does not touch supervisor state'))
+    spec.add(Contract('circus.watcher:Watcher._create_redirectors', trusted=True,
+                      modifies=['self.stream_redirector', 'new:Redirector'],
+                      note='placeholder until C17: replaces the redirector object only'))
+    HK0 = "length(old(hooklog))"
+    BEFORE_START_FALSY = ("('before_start' in old(self.hooks)) and ev_pid(hooklog[%s]) == 0 and "
+                          "ev_topic(hooklog[%s]) == 'before_start'" % (HK0, HK0))
+    spec.add(Contract(
+        'circus.watcher:Watcher._start', kind='coroutine', rely='held',
+        requires=LIFE_REQ + ["implies(self._status == 'stopped', len(self.processes) == 0)",
+                             "self._status == 'stopped' or self._status == 'active'"],
+        ensures=[
+            SPKEEP, MINE, PACED, 'excl', 'wf_w(self)',
+            # a start from stopped ends active or stopped (never in a transient status)
+            "implies(old(self._status) == 'stopped', self._status == 'active' or self._status == 'stopped')",
+            # before_start gate: falsy (or failing) hook => nothing is spawned, still stopped
+            "implies(old(self._status) == 'stopped' and %s, self._status == 'stopped' and "
+            "spawnlog == old(spawnlog) and len(self.processes) == 0)" % BEFORE_START_FALSY,
+            # an aborted start leaves no listed worker
+            "implies(self._status == 'stopped', len(self.processes) == 0)",
+            # success: exactly numprocesses workers, all spawned by this start
+            "implies(old(self._status) == 'stopped' and self._status == 'active', "
+            "len(self.processes) == self.numprocesses and "
+            "length(spawnlog) - length(old(spawnlog)) == self.numprocesses and self.numprocesses > 0)",
+            # the start event is published iff the start succeeded
+            "implies(old(self._status) == 'stopped' and self._status == 'active', "
+            "length(startlog) == length(old(startlog)) + 1)",
+            "implies(self._status != 'active' or old(self._status) != 'stopped', startlog == old(startlog))",
+            'self.numprocesses == old(self.numprocesses)',
+        ],
+        raises={'RuntimeError': []},
+        modifies=['*'],
+        ghost_at={'notify_event': ["startlog = ite(args[0] == 'start', startlog + [pubev(ref_id(self), 'start', 0, 0)], startlog)"]},
+    ))
